@@ -60,6 +60,14 @@ func linRun(args []string) error {
 			sink.Emit(ev)
 		}
 	}
-	fmt.Printf("{\"scenarios\":%d,\"with_overlap\":%d,\"hangs\":%d,\"gets_during_replace\":%d}\n", sink.N, overlap, hangs, gets)
+	dels := 0
+	if hangs == 0 {
+		for i, mode := range []string{"nh", "nhg"} {
+			ev := lindrv.RunRef(i+1, mode, *replaces)
+			dels += ev.Deletes
+			sink.Emit(ev)
+		}
+	}
+	fmt.Printf("{\"scenarios\":%d,\"with_overlap\":%d,\"hangs\":%d,\"gets_during_replace\":%d,\"deletes_during_replace\":%d}\n", sink.N, overlap, hangs, gets, dels)
 	return nil
 }
